@@ -559,7 +559,9 @@ def gen_c18(g, run_seed, tier, opts):
             G.add(st)
         elif u < cfg["repeat_p"] + 0.08:
             act = g.choice([["draw", "randn", 2], ["reseed", g.randrange(2**32)],
-                            ["loglevel", g.choice(["DEBUG", "INFO", "ERROR"])]])
+                            ["loglevel", g.choice(["DEBUG", "INFO", "ERROR"])],
+                            ["seterr", g.choice(["raise", "warn", "ignore"])],
+                            ["warnfilter", g.choice(["error", "ignore", "always"])]])
             G.add({"op": "user", "act": act, "slot": "s0"})
         elif u < cfg["repeat_p"] + 0.08 + 0.03:
             made = [s for s in G.steps if s["op"] == "make" and s["slot"] in G.slots]
